@@ -264,6 +264,15 @@ func run(t *testing.T, sc Scenario) *core.Result {
 			return w.S.HoldTotal() - holdBefore + 8*us(sc.Net.LatMaxUS) + 2*time.Second
 		}
 		baseBound := ms(sc.ReadTO) + ms(sc.WriteTO)
+		// with a peer that stopped reading or vanished, a write that is already blocked and the
+		// response / TEARDOWN written next run into their deadlines one after the other
+		// (observed: session writer blocked, then the connection's response to the peer's
+		// last request): still bounded, two write timeouts instead of one
+		for _, p := range sc.Peers {
+			if p.StallAtUS > 0 || p.Vanish {
+				baseBound = ms(sc.ReadTO) + 2*ms(sc.WriteTO)
+			}
+		}
 
 		var serverClosed, streamClosed bool
 		var smu sync.Mutex
@@ -298,7 +307,7 @@ func run(t *testing.T, sc Scenario) *core.Result {
 			d := time.Since(t0)
 			w.Log.Add("driver:"+who, "server.close.ret", "")
 			if lim := baseBound + budget(hold0); d > lim {
-				w.Fail("c13/close-latency server", "Server.Close took %v of simulated time (bound %v = ReadTimeout+WriteTimeout+injected-delay budget)", d, lim)
+				w.Fail("c13/close-latency server", "Server.Close took %v of simulated time (bound %v)", d, lim)
 			}
 			// nothing created by the server may remain
 			if left := w.Net.OpenSockets("srv"); len(left) > 0 {
@@ -389,7 +398,7 @@ func run(t *testing.T, sc Scenario) *core.Result {
 					w.Log.Add(name+":"+who, "client.close.ret", "")
 					// a recording client whose peer stopped reading: the write in progress runs into its
 					// deadline, then the TEARDOWN written by Close does (two write timeouts in a row)
-					if lim := baseBound + ms(sc.WriteTO) + budget(hold0); d > lim {
+					if lim := baseBound + budget(hold0); d > lim {
 						w.Fail("c13/close-latency client", "Client.Close (%s, state %s) took %v of simulated time (bound %v)", p.Transport, st, d, lim)
 					}
 					if left := w.Net.OpenSockets(name); len(left) > 0 {
@@ -791,7 +800,7 @@ func init() {
 	f.Excluded = []string{"UDP-multicast transport (serverMulticastWriter*)", "back-pressure under TLS / WebSocket"}
 	f.Rule = "scenario = 1..4 peers (reader or publisher; udp/tcp/http/ws; plain or TLS+SRTP) each progressing to a seeded protocol step (started, described/announced, set up, playing/recording, paused, resumed) x Client.Close from another goroutine at a seeded instant (or silent disappearance of the peer's node) x Server.Close / ServerStream.Close at seeded instants while a writer keeps writing x peers that stop reading (bounded window + stall) x seeded yield holds on the shutdown paths; non-trivial = at least one Close (or vanish) landed mid-run and a fault or yield fired; distinct = distinct hash of the canonical event log"
 	f.Assumptions = []string{
-		"bounded time for Close = ReadTimeout + WriteTimeout (Client.Close: + one more WriteTimeout, because a write that is blocked on a peer that stopped reading and the TEARDOWN written by Close run into their deadlines one after the other) + the simulator's own injected-delay budget (yield holds assigned during the call, 8 x max latency, 2 s)",
+		"bounded time for Close = ReadTimeout + WriteTimeout (ReadTimeout + 2 x WriteTimeout in scenarios with a peer that stops reading or vanishes: a write that is already blocked and the response / TEARDOWN written next run into their deadlines one after the other) + the simulator's own injected-delay budget (yield holds assigned during the call, 8 x max latency, 2 s)",
 		"per-object goroutine attribution is best effort (creator chains seen at census points); the end-of-run census (no goroutine at all left in the bubble) is complete",
 		"'packet or request callback' = OnPacketRTP/OnPacketRTCP callbacks of the session and the OnAnnounce/OnSetup/OnPlay/OnRecord/OnPause/OnGetParameter/OnSetParameter handler calls that carry the session",
 	}
